@@ -1,2 +1,30 @@
+"""C18 R1: model-check the faithful lexer (spec/Lexer.tla) against the abstract properties on the string families, and measure the
+agreement of the model's token streams with the real lexer's (drift, never a violation)."""
+import vlib
+
+
 def run(chk, tier, vh):
-    pass
+    import c18
+    b = c18.BOUNDS[tier]
+    disagree, total, examples = 0, 0, []
+    for alpha in ("full", "lines", "indent"):
+        r = vlib.tlc("MC_Lexer", "MC_Lexer.cfg", constants={"AlphaName": '"%s"' % alpha, "N": b[alpha]}, xss="1g")
+        chk.add_tlc(r)
+        recs = [{"id": i, "src": "".join(c["parts"])} for i, c in enumerate(r.records)]
+        real = {o["id"]: o for o in vlib.run_vh(vh, ["lex"], records=recs)}
+        for i, c in enumerate(r.records):
+            o = real[i]
+            total += 1
+            model = None if c["err"] else [(t["k"], t["sl"], t["sc"], t["el"], t["ec"]) for t in c["toks"]]
+            impl = None if not o["ok"] else [(t["k"], t["sl"], t["sc"], t["el"], t["ec"]) for t in o["toks"]]
+            # structural tokens: compare kinds only (their positions are the caret's, not part of the property)
+            def norm(ts):
+                return None if ts is None else [t if t[0] not in ("NL", "Indent", "Dedent") else (t[0],) for t in ts]
+            if norm(model) != norm(impl):
+                disagree += 1
+                if len(examples) < 5:
+                    examples.append({"input": recs[i]["src"], "model": model, "real": impl})
+    chk.extra["model_agreement"] = {"inputs": total, "token_streams_that_differ_between_Lexer.tla_and_the_real_lexer": disagree}
+    if disagree:
+        chk.drift += examples
+        chk.note("drift: spec/Lexer.tla and the real lexer disagree on %d of %d inputs (the model needs an update; not a violation)" % (disagree, total))
